@@ -121,6 +121,36 @@ Example C20_nonvacuous_owner :
   no_recursive_lock [run] = true /\ lock_order_ok [run] = true.
 Proof. vm_compute. repeat split. Qed.
 
+(* handler effects are atomic with respect to the independent status reconcilers: a handler is a trace
+   of state writes and notifications, the reconciler is an EAGER consumer that reads the state at
+   every notification (it may be scheduled between the notification and the rest of the handler, its
+   fetcher needs only the component's lock).  If published = state before the handler and every
+   write of the handler is followed by a later notification, then published = final state after it;
+   a notification sent before the write it announces leaves a stale value.  The obligation
+   repo_notify_after_state decides the order (and, for unconditional last writes, that the last
+   notification is unconditional too) on the facts regenerated from the Go AST. *)
+Theorem C20_notify_after_state : forall (S : Type) (t : list (nev S)) (sp : S * S),
+  fst sp = snd sp -> ends_notified S t = true -> fst (nrun S t sp) = snd (nrun S t sp).
+Proof. exact notified_quiescent. Qed.
+
+Theorem C20_notify_before_state_stale :
+  let t := [NNotify nat; NWrite nat (fun n => n + 1)%nat] in
+  ends_notified nat t = false /\ nrun nat t (0, 0)%nat = (1, 0)%nat.
+Proof. exact notify_before_state_stale. Qed.
+
+(* the shapes of the seeded changes C20-5 (notification first) and C20-6 (the final notification made
+   conditional) against the code's shapes *)
+Example C20_nonvacuous_notify :
+  let ns := [("cb", ["A.f"], true, "A.")] in
+  let helper := ("A.upd", [Acq "A.mu"; WrE "A.f"; Rel "A.mu"]) in
+  notify_after_state [("A.Set", [Call "A.upd"; CallCb "cb"]); helper] ["A.Set"] ns = true /\
+  notify_after_state [("A.Set", [CallCb "cb"; Call "A.upd"]); helper] ["A.Set"] ns = false /\
+  notify_after_state [("A.Set", [Call "A.upd"; CondB; CallCb "cb"; CondE]); helper] ["A.Set"] ns = false /\
+  notify_after_state [("A.Set", [CondB; Call "A.upd"; CondE; CondB; CallCb "cb"; CondE]); helper] ["A.Set"] ns = true /\
+  notify_after_state [("A.Set", [Call "A.upd"]); helper] ["A.Set"] ns = false /\
+  notify_violations [("A.Set", [CallCb "cb"; Call "A.upd"]); helper] ["A.Set"] ns = [("A.Set", "cb")].
+Proof. vm_compute. repeat split. Qed.
+
 (* non-vacuity of the obligation: the two defer orders of SetBalancer *)
 Example C20_nonvacuous_send :
   let loop := ("A.spamLoop", [Recv "A.ch"; Call "A.gratuitous"]) in
